@@ -60,7 +60,8 @@ def run_verus_unit(unit_name, prop, tier, only=None):
     try:
         u = mod.build(REPO, trace)
     except rsx.ExtractError as e:
-        return [Res('%s::<extract>' % unit_name, 'verus', 'infra', [prop] if prop else [], 'extractor', 0, 'extraction failed: %s' % e)], info
+        return [Res('%s::<extract>' % unit_name, 'verus', 'infra', [prop] if prop else [], 'extractor', 0, 'extraction failed: %s' % e,
+                    extra={'extract_failed': True})], info
     texts = u['texts']
     obls = [o for o in u['obligations'] if (prop is None or prop in o.props)]
     if only:
@@ -138,10 +139,15 @@ def match_known(known, prop, res):
             continue
         if f.get('obligation') != res.name:
             continue
-        # a finding is identified by the obligation AND the specific failing input/call site
+        # a finding is identified by the obligation AND the specific failing input (`input_signature`) or call site
+        # (`class`: the failure class the contract computes from the CAUSE, e.g. `not-enclosing:MulRegReg:nan-corner`)
+        if 'class' in f:
+            if f['class'] == (res.replay or {}).get('klass'):
+                return f
+            continue
         want = f.get('input_signature')
         have = (res.replay or {}).get('signature')
-        if want is None or want == have:
+        if want is not None and want == have:
             return f
     return None
 
@@ -165,6 +171,21 @@ def write_replay(prop, res, cex=None):
 def finish(prop, tier, seed, level, results, infos, t0, explanation, trusted_base, assumptions, checker_cmd, cex_search=None, samples_extra=None):
     """Write evidence, print lines, return exit code."""
     known = load_known()
+    # A lost anchor / changed source shape leaves the Verus obligations undecided (exit 2).  Before settling for that,
+    # run the paired counterexample search: a concrete failing input on the real code is a violation in its own right.
+    if cex_search:
+        for r in results:
+            if r.status in ('infra', 'undecided') and r.engine == 'verus':
+                try:
+                    cex = cex_search(r)
+                except Exception as e:
+                    cex = {'error': str(e)}
+                if cex and cex.get('failing_input'):
+                    r.status = 'fail'
+                    r.replay = cex['failing_input']
+                    r.detail = 'the contract text no longer matches the source (%s); the paired bounded contract `%s` finds a failing input on the real code: %s' % (
+                        r.detail.split('\n')[0][:200], cex.get('contract'), (cex['failing_input'].get('what') or '')[:400])
+                break   # one search is enough: it is the same contract family
     violations = []
     known_hits = []
     infra = []
@@ -222,9 +243,17 @@ def finish(prop, tier, seed, level, results, infos, t0, explanation, trusted_bas
     os.makedirs(EVIDENCE, exist_ok=True)
     with open(os.path.join(EVIDENCE, prop + '.json'), 'w') as f:
         json.dump(ev, f, indent=1)
+    seen_k = set()
     for r, k in known_hits:
+        if id(k) in seen_k:
+            continue
+        seen_k.add(id(k))
         print('KNOWN-FINDING: property=%s %s' % (prop, k.get('what')))
+    reported = set()
     for r in violations:
+        if r.name in reported:
+            continue   # one VIOLATION line per obligation (further failing inputs of the same obligation are in the evidence file)
+        reported.add(r.name)
         cex = None
         if cex_search and r.replay is None:
             try:
